@@ -68,6 +68,8 @@ def round_trip(ctx, nc, plain, salt, case):
 
 def rand_plain(rng):
     n = rng.choice([0, 1, 2, 3, 6, 7, 8, 13, 14, 15, rng.randint(0, 40)])
+    if rng.random() < 0.002:
+        n = rng.choice([990, 1000, 1024, 2500, 5000])  # "any length": a certificate or a key blob stored as $9$
     r = rng.random()
     if r < 0.06:
         # a plaintext that itself reads like a secret of some format: a well-formed $9$ string (own encoder), a $1$ / $6$ / type-7 shape
